@@ -110,8 +110,14 @@ func (r *resolver) module(y *Module) error {
 				if err != nil {
 					return fmt.Errorf("%s - %s", i.moduleName, err)
 				}
+				// the cycle and reuse bookkeeping is also by the name the module was asked for: a
+				// file that declares another name would otherwise be loaded again and again
+				r.loadedModules[i.moduleName] = i.module
+				r.resolving[i.moduleName] = true
 				// recurse
-				if err = r.module(i.module); err != nil {
+				err = r.module(i.module)
+				delete(r.resolving, i.moduleName)
+				if err != nil {
 					return err
 				}
 			}
